@@ -115,7 +115,9 @@ def oracle(ctx):
     rels = ['./x', 'x/y', '../up', './a/../b//c/', 'a/./b', '%h/x', '%S/app/x.yaml', '%E/x', '%T/../x', '%1/x', '%%/x', '%hh/x', '/abs/./p/..', 'plain', '.', '..', '.cache/app', '..data/x', '.hidden', './', '../', './/x', '...']
     cases = []
     for _ in range(300 if ctx.thorough else 80):
-        unitdir = rnd.choice(['/q', '/q/sub dir', '/etc/containers/systemd/users/1000'])
+        # the directory the unit was found in is taken as it was spelled (QUADLET_UNIT_DIRS and the XDG directories are used verbatim):
+        # repeated separators, '.', '..' in it must not survive in what is derived from it
+        unitdir = rnd.choice(['/q', '/q/sub dir', '/etc/containers/systemd/users/1000', '/q//sub', '/q/./sub', '/q/x/../sub', '/q/sub/.', '/q/sub//', '//q/sub', '/q/a/b/../../sub'])
         r = rnd.choice(rels)
         kind = rnd.choice(['yaml', 'configmap', 'envfile', 'volume', 'mount', 'wd-yaml', 'wd-file', 'wd-custom', 'wd-custom'])
         if kind == 'wd-custom':
